@@ -3,6 +3,7 @@ import AtreeModel.Replay.Array
 import AtreeModel.Replay.Storage
 import AtreeModel.Replay.Health
 import AtreeModel.Replay.Map
+import AtreeModel.Replay.Batch
 import AtreeModel.Replay.World
 import AtreeModel.Replay.Settings
 import AtreeModel.Replay.Codec
@@ -81,6 +82,12 @@ partial def loopIter (h : IO.FS.Stream) (s : IterState) (n : Nat) : IO IterState
   let line := (line.dropRightWhile (fun c => c == '\n' || c == '\r'))
   loopIter h (s.stepLine line n) (n + 1)
 
+partial def loopBatch (h : IO.FS.Stream) (s : BatchState) (n : Nat) : IO BatchState := do
+  let line ← h.getLine
+  if line.isEmpty then return s
+  let line := (line.dropRightWhile (fun c => c == '\n' || c == '\r'))
+  loopBatch h (s.stepLine line n) (n + 1)
+
 def main (args : List String) : IO UInt32 := do
   let stdin ← IO.getStdin
   match args with
@@ -118,11 +125,16 @@ def main (args : List String) : IO UInt32 := do
     let r := s.finish.report
     IO.println ("RESULT " ++ reportJson "iter" r)
     return (if r.nMismatch == 0 then 0 else 1)
+  | ["batch"] =>
+    let s ← loopBatch stdin {} 1
+    let s := if s.pending.isEmpty then s else s.note s!"end of trace: model expected further lines: {s.pending}"
+    IO.println ("RESULT " ++ reportJson "batch" s.rep)
+    return (if s.rep.nMismatch == 0 then 0 else 1)
   | ["health"] =>
     let s ← loopHealth stdin {} 1
     let s := if s.pending.isEmpty then s else s.note s!"end of trace: model expected further lines: {s.pending}"
     IO.println ("RESULT " ++ reportJson "health" s.rep)
     return (if s.rep.nMismatch == 0 then 0 else 1)
   | _ =>
-    IO.eprintln "usage: atree_model <array|storage|health|map|world|settings|codec|iter> < trace"
+    IO.eprintln "usage: atree_model <array|storage|health|map|world|settings|codec|iter|batch> < trace"
     return 2
